@@ -688,19 +688,20 @@ class Substance:
         substance.density = config.default_enzyme_density
         value, numerator, denominator = Unit.parse_concentration(specific_activity)
 
-        if numerator == 'U' and denominator == 'g':
-            substance.specific_activity = value
-        elif numerator == 'g' and denominator == 'U':
-            # mass per activity: the reciprocal of the two stated numbers ('1 mg/7 U' is 7 U/mg), not of the parsed
-            # ratio, which has been rounded to ten digits
-            mass, _, activity = specific_activity.partition('/')
-            activity = activity if ' ' in activity else '1 ' + activity
-            mass = Unit.parse_quantity(mass)[0]
-            if mass == 0:
-                raise ValueError("Specific activity must be positive.")  # ('0 g/U': no mass carries the activity)
-            substance.specific_activity = Unit.parse_quantity(activity)[0] / mass
-        else:
+        if {numerator, denominator} != {'U', 'g'}:
             raise ValueError("Specific activity must be in U/g or g/U.")
+        # the quotient of the two stated quantities ('1 mg/7 U' is 7 U/mg, '1 U/3 g' a third of a unit per gram), not
+        # the parsed ratio or its reciprocal: that has been rounded to ten digits
+        try:
+            over, _, under = map(str.strip, specific_activity.partition('/'))
+            under = under if ' ' in under else '1 ' + under
+            activity, mass = (over, under) if numerator == 'U' else (under, over)
+            activity, mass = Unit.parse_quantity(activity)[0], Unit.parse_quantity(mass)[0]
+        except ValueError:
+            raise ValueError("Specific activity must be in U/g or g/U.")
+        if mass == 0:
+            raise ValueError("Specific activity must be positive.")  # ('0 g/U': no mass carries the activity)
+        substance.specific_activity = activity / mass
         if not 0 < substance.specific_activity < float('inf'):
             raise ValueError("Specific activity must be positive.")
         # the same activity has one value however it was spelt ('100 U/mg', '10 ug/U', '100000 U/g': 99999.99999999999
